@@ -94,7 +94,11 @@ pub fn run_scenario(seed: u64, i: usize, tier: Tier) -> Outcome {
         return o;
     };
     let w = world.inner.lock().unwrap();
-    if let Err(e) = &run.result {
+    // a bind storm may legitimately exhaust the 512-sequence budget of a round (C07 judges that)
+    let exhausted = wcfg.faults.bind_in_use_pct > 0 && matches!(&run.result, Err(e) if e.contains("insufficient buffer capacity"));
+    if exhausted {
+        o.count("runs_ended_by_sequence_budget_exhaustion", 1);
+    } else if let Err(e) = &run.result {
         o.violate("run_completes", format!("{}|{}", cell.name(), e.split(':').next().unwrap_or("")), format!("run failed: {e}"), replay.clone());
     }
     let a = analyse(&w, 0, &run);
